@@ -49,6 +49,17 @@ M = [
  ('C12-g', 'C12', 'core/matcher.py', "        self.negative = [pattern for pattern in self.negative if not pattern.always() is False]\n        if len(self.positive) == 0:", "        self.negative = [pattern for pattern in self.negative[1:] if not pattern.always() is False]\n        if len(self.positive) == 0:", 1),
  ('C12-h', 'C12', 'frontends/tui/controller.py', "            return old if old is not None else matcher.never", "            return matcher.never", 1),
  ('C12-i', 'C12', 'frontends/tui/controller.py', "                return matcher.join(parsed, old).simplify()", "                return matcher.join(old, parsed).simplify()", 1),
+ ('C05-a', 'C05', 'core/matcher.py', "                    if matcher.matches(arg):\n                        result = False\n                        break\n        return result\n\n    def simplify(self) -> Matcher[Tuple[wl.Arg.Base, ...]]:", "                    if matcher.matches(arg):\n                        result = True\n                        break\n        return result\n\n    def simplify(self) -> Matcher[Tuple[wl.Arg.Base, ...]]:", 1),
+ ('C05-b', 'C05', 'core/matcher.py', "isinstance(arg, wl.Arg.Float) or isinstance(arg, wl.Arg.Fd):", "isinstance(arg, wl.Arg.Float):", 1),
+ ('C05-c', 'C05', 'core/matcher.py', "        if not self.name_matcher.matches(message.name):\n            return False\n", "", 1),
+ ('C05-d', 'C05', 'core/matcher.py', "isinstance(arg, wl.Arg.Object) and arg.is_new and self.obj_matcher", "isinstance(arg, wl.Arg.Object) and self.obj_matcher", 1),
+ ('C05-e', 'C05', 'core/matcher.py', "generation = obj.generation if obj.generation is not None else 0", "generation = obj.generation if obj.generation is not None else 1", 1),
+ ('C05-f', 'C05', 'core/matcher.py', "re_pattern = r'^' + re.escape(pattern)", "re_pattern = r'' + re.escape(pattern)", 1),
+ ('C05-g', 'C05', 'core/matcher.py', "        elif isinstance(arg, wl.Arg.Null) and isinstance(arg.type, str):\n            return self.wrapped.matches(arg.type)", "        elif isinstance(arg, wl.Arg.Null) and isinstance(arg.type, str):\n            return False", 1),
+ ('C05-h', 'C05', 'core/matcher.py', "name = conn.name() if conn is not None else 'unknown'", "name = conn.name() if conn is not None else ''", 1),
+ ('C05-i', 'C05', 'core/matcher.py', "        return self.expected == value", "        return self.expected is value", 1),
+ ('C05-j', 'C05', 'core/matcher.py', "mock = wl.object.MockObject(id=0, type=arg.type)", "mock = wl.object.MockObject(id=1, type=arg.type)", 1),
+ ('C05-k', 'C05', 'core/matcher.py', "            if not found_match:\n                result = False\n                break", "            if not found_match:\n                result = False", 0),
  ('C16-a', 'C16', 'frontends/tui/controller.py', 'if delta > 1.0:', 'if delta >= 1.0:', 1),
  ('C16-b', 'C16', 'frontends/tui/controller.py', "                ')')\n            self.last_shown_timestamp = None", "                ')')", 1),
  ('C06-a', 'C06', 'frontends/tui/controller.py', 'if self.current_connection is None or connection == self.current_connection:', 'if True:', 1),
